@@ -88,7 +88,7 @@ CLAIMS.update({
     'C16': ('loop/call skeleton regenerated from /repo on every run equals the expected one (reflexivity): all loops bounded '
             'except IntervalProducer\'s two while loops; exhausted bound = InfiniteLoopDetectedError; interval terminates '
             'when an admissible grid point exists within the fuel; never-accepting filter refuted (F9, known finding). '
-            'PARTIAL: no closed-form work bound; wall-clock budget per call in the correspondence', P_NOTE, '6/C16'),
+            'cost_bound (closed form of the loop bounds); wall-clock budget per call in the correspondence; known findings F9 F17 F19', P_NOTE, '6/C16'),
     'C19': ('every row of the property for all tables / now / arguments: none=now, durations, identity rows, naive = system '
             'local, time of day = today-or-tomorrow and (under wf_tz + dates-forward) the LEAST instant >= now showing it, '
             'positivity, past tolerance tied to the generated constant. The refusal of a time that is skipped/repeated today '
@@ -139,8 +139,7 @@ CLAIMS['C02'] = ('queue = exactly the running jobs once each; a disabled schedul
 CLAIMS['C03'] = ('single_job_exact: for every history OAt + any interleaving of clock advances / wake-ups / early wake-ups the '
     'model equals a 12-line reference loop; keepup_enumerates + at_time_trigger_enumerates / at_tig_trigger_enumerates: while '
     'the loop keeps up the executions enumerate the trigger occurrence set after creation in order, none skipped, none '
-    'duplicated; next run = next occurrence after the execution instant. PARTIAL: proved for ONE undisturbed job; disturbing '
-    'jobs are covered by the virtual-time runs of the real scheduler with real triggers', SCHED_NOTE + ' ' + P_NOTE, '6/C03 + 11')
+    'duplicated; next run = next occurrence after the execution instant. disturbed_job_exact: the same for a recurring job among any other jobs and operations on them', SCHED_NOTE + ' ' + P_NOTE, '6/C03 + 11')
 CLAIMS['C05'] = ('interval_earliest, time_earliest (earliest admissible occurrence over ALL local days, tables with spread <= 4 h), '
     'group_earliest / tig_earliest (time / interval-with-start / groups to any depth with member and group filters), grid '
     'stability - all proved', P_NOTE, '6/C05 + 11')
@@ -153,14 +152,14 @@ CLAIMS['C07'] = ('status_next_agree, finished_terminal, StoreOK for every reacha
     'all proved', SCHED_NOTE, '6/C07 + 11')
 CLAIMS['C08'] = ('once_start_exact, once_at_most_once, countdown_start_exact, countdown_next_only_by_reset, no_exec_without_reset, '
     'paused after its run - proved for typed histories (reset / set_countdown on countdown jobs only); never early and on '
-    'time from C01', SCHED_NOTE + ' The asynchronous executor path is checked by scenario oracles only.', '6/C08 + 11')
+    'time from C01', SCHED_NOTE + '', '6/C08 + 11')
 CLAIMS['C09'] = ('queue sorted in every reachable state; wake_order / enable_order: inside one wake-up or re-enable the starts are '
     'in non-decreasing order of their announced times, no job twice, also across nested run_jobs; lifted to EVERY history by '
     'reachable_cx_fresh', SCHED_NOTE, '6/C09 + 11')
 CLAIMS['C10'] = ('failures_isolated: for every history, erasing the handler events of failing callables / callbacks gives exactly '
     'the failure-free run (same outcomes, same final state); handled_exactly_once; invariant and never-early under any failure '
     'environment; F5_refuted (a trigger raising inside execute makes run_jobs diverge: known finding)',
-    SCHED_NOTE + ' The asynchronous executor path (AsyncExecutor + task managers) is checked by scenario oracles only.', '6/C10 + 11')
+    SCHED_NOTE + ' The asynchronous executor path is modelled on top of TaskMgr.v (AsyncExec.v, 17 theorems) with its own correspondence.', '6/C10 + 11')
 CLAIMS['C13'] = ('offset_exact, earliest / latest clamp = max / min with the policy-selected bound on the occurrence\'s local day, '
     'unchanged within the bound (hypotheses stated), clamp_same_day, never_beyond_bound, offset_chain_complete, jitter_window '
     '+ jitter_shift_forward_window - proved', P_NOTE, '6/C13 + 11')
@@ -173,6 +172,34 @@ CLAIMS['C15'] = ('builder_noninterference (every builder call only appends; exis
 CLAIMS['C16'] = ('loop/call skeleton regenerated from /repo equals the expected one; cost_bound: for EVERY expression the number of '
     'loop rounds is bounded by a closed form of the generated loop bound (99 999 per nesting level; interval: its fuel); '
     'interval_terminates; interval_unsat_refuted (F9, known finding)', P_NOTE, '6/C16 + 11')
+
+# second tie: statement-level translators regenerate Gallina from the sources on every run; Gen*Eq.v proves it equal to the model
+TIES = {
+    'C01': 'gen_sched.py (async_scheduler.py: gen_agrees), gen_jobs.py (job classes: gen_agrees2, gen2_wake_is_model)',
+    'C02': 'gen_sched.py, gen_jobs.py, gen_builder.py (builder/jobs.py, job store, controls: gen_add_job_is_create, store first)',
+    'C03': 'through C01 / C02 (scheduler, jobs, builder) and C05 (producers); disturbed_job_exact for a job among others',
+    'C04': 'gen_prod.py (gen_get_next_is_model: every generated producer = Producers.get_next)',
+    'C05': 'gen_prod.py (interval / time / group get_next and the filters)',
+    'C06': 'gen_prod.py (TimeProducer.get_next, TimeReplacer.replace, find_time_after_dst_switch)',
+    'C07': 'gen_jobs.py (set_next_run, callbacks, API operations against step_op), gen_builder.py (store, controls)',
+    'C08': 'gen_jobs.py (one-shot / countdown classes: update_next, reset, set_countdown)',
+    'C09': 'gen_sched.py (insort / run_jobs loop), gen_jobs.py (__lt__ = job_lt)',
+    'C10': 'gen_sched.py (try / except of run_jobs), gen_jobs.py (JobCallbackHandler.run), gen_builder.py (SyncExecutor, AsyncExecutor._execute = wrap_beh)',
+    'C11': 'gen_taskmgr.py (the three sequential classes: gen_create_task_is_submit, gen_done_cb_is_model)',
+    'C12': 'gen_taskmgr.py (the two parallel classes)',
+    'C13': 'gen_prod.py (the four apply_operation bodies and the operation loop)',
+    'C14': 'gen_prod.py (offset / jitter)',
+    'C15': 'gen_trig.py (builder calls and copy over a heap of objects: gen_run_is_model, copy_prod_spec), gen_prod.py',
+    'C16': 'gen_prod.py + gen_facts.py (loop bounds), gen_sun.py',
+    'C17': 'gen_parse.py (argument parser; name tables computed in Coq from the source literals), gen_prod.py (filter allow methods)',
+    'C18': 'gen_sun.py (gen_get_next_sun_eq, gen_get_next_is_model_sun)',
+    'C19': 'gen_instant.py (get_instant, get_time, get_pos_timedelta_secs)',
+    'C20': 'gen_dst.py (dst_param.py for any table; DstFacts restated for the generated code)',
+}
+TIE_NOTE = (' SECOND TIE (translation): {} - fail-closed Python-ast translators regenerate coq/gen/*.v from /repo on every run and '
+            'hand-written Gen*Eq.v files prove the generated code equal to the model; theorems Cxx_generated_* in the property file. '
+            'A source change the translator or these proofs do not survive is reported as a broken proof obligation '
+            '(VIOLATION ... no-failing-input-found unless the correspondence / oracle find a failing input).')
 
 checks = []
 na = []
@@ -188,9 +215,10 @@ for p in props:
             'replay_cmd_template': f'./check {pid} --replay {{path}}',
             'engine': 'rocq-model+correspondence',
             'level_claimed': {'category': 'proof', 'text': text, 'design_ref': f'DESIGN.md section 6 ({pid})'},
-            'level_note': note,
-            'technique': 'machine-checked proof in Rocq (Coq 8.16) over an executable model + in-Coq differential '
-                         'correspondence check against the implementation',
+            'level_note': note + TIE_NOTE.format(TIES[pid]),
+            'technique': 'machine-checked proof in Rocq (Coq 8.16) over an executable model; the model is tied to the source '
+                         'both by an in-Coq differential correspondence check against the implementation and by '
+                         'statement-level translators whose output is proved equal to the model on every run',
         })
     else:
         na.append({'property_id': pid, 'reason': 'check not built yet (work in progress; see DESIGN.md section 6)'})
